@@ -1,9 +1,9 @@
 CONSTANTS
   Mode = "bytes"
   Alpha = {33, 36, 58, 126, 43, 45, 38, 124, 94, 61, 60, 62, 42, 47, 37}
-  MaxLen = 3
+  MaxLen = 5
   First = {33, 36, 58, 126, 43, 45, 38, 124, 94, 61, 60, 62, 42, 47, 37}
 INIT Init
 NEXT Next
-INVARIANTS Emit
+INVARIANTS Laws Emit
 CHECK_DEADLOCK FALSE
